@@ -189,7 +189,7 @@ func c03Line(c *Ctx, in string) {
 	switch parts[0] {
 	case "reset", "sreset":
 		c03sLine(c, "sreset")
-	case "sreg", "sraw", "sget", "schk":
+	case "sreg", "sraw", "sget", "schk", "sdie":
 		c03sLine(c, in)
 	case "dec": // dec <spec> <rest> <buf>
 		spec := parts[1]
